@@ -92,6 +92,10 @@ def gen(ctx, n):
         ctx.add('rs.hash', hx(vals.rb(rng, rng.randrange(200))), cls='total-constructors')
         ctx.add('ed.nonspec_map', hx(vals.rb(rng, rng.randrange(100))), cls='total-constructors')
         ctx.add('x.pubkey', b32.hex(), vals.rb(rng, 32).hex(), cls='total-constructors')
+        ctx.add('misc.debug', rng.choice(['B', 'I', 'T1', 'T4']), 'm' + b32.hex(), vals.rb(rng, 32).hex(), cls='total-constructors')
+        ctx.add('misc.sc_random', b64.hex(), cls='total-constructors')
+        ctx.add('misc.rs_random', b64.hex(), cls='total-constructors')
+        ctx.add('misc.sk_generate', b32.hex(), cls='total-constructors')
         msg = vals.rb(rng, rng.choice([0, 1, 100]))
         ctx.add('sig.verify', b32.hex(), hx(msg), b64.hex(), cls='verify:random')
         ctx.add('sig.skverify', b32.hex(), hx(msg), b64.hex(), cls='verify:random')
